@@ -352,7 +352,8 @@ class Scripted(BaseStrategy):
                 between = [p for p in C if bb < p < bl]
                 side = rnd.choice(["BACK", "LAY"])
                 kind = rnd.random()
-                persistence = "PERSIST" if (doomed or rnd.random() < 0.75) else "LAPSE"
+                # (on the runner that will be removed: PERSIST, or the MARKET_ON_CLOSE persistence of a LIMIT order - it is voided and completes like any other)
+                persistence = rnd.choice(["PERSIST", "PERSIST", "MARKET_ON_CLOSE"]) if doomed else ("PERSIST" if rnd.random() < 0.75 else "LAPSE")
                 if kind < 0.35:  # crosses the book: matched at once (possibly over several levels)
                     lv = atb if side == "BACK" else atl
                     price = lv[rnd.randint(0, min(2, len(lv) - 1))]["price"]
